@@ -119,8 +119,11 @@ Definition inp_equal (sh : shash) (envc : N) (inp : list (N * N)) : bool :=
   (sh_env sh =? envc) && pairs_eqb (sh_inp sh) inp.
 
 (* ---- pop_next_job, then execute_job up to the command / try_skip_job up to the output hashing /
-        the whole of validate_dynamic_job ---- *)
-Definition do_xtry (x : xworld) (t : N) (cancel : bool) : xworld * xres :=
+        the whole of validate_dynamic_job ----
+   `vg` = the decision of validate_dynamic_job after _new_run (generated: validate_gen); it is a
+   parameter so that the code before fix d760e3e (validate_prefix below) can be named as well. *)
+Definition do_xtry_gen (vg : bool -> bool -> bool * bool * N * bool)
+    (x : xworld) (t : N) (cancel : bool) : xworld * xres :=
   let w := xb x in
   if negb (dispatchable w) || is_checking x then (x, XRTry 0 false)
   else if derive_error w then (set_xb x (set_error w true), XRTry 0 false)
@@ -146,7 +149,7 @@ Definition do_xtry (x : xworld) (t : N) (cancel : bool) : xworld * xres :=
             let ie := inp_equal sh (x_envc x) inp in
             match k with
             | JK_validate =>
-                let '(reset, state_set, st, df) := validate_gen true ie in
+                let '(reset, state_set, st, df) := vg true ie in
                 if reset then (apply_reset x w, XRTry kn false)
                 else if state_set then (set_xb x (set_crow w st df (c_dc w)), XRTry kn false)
                 else (set_xb x w, XRTry kn false)
@@ -159,6 +162,15 @@ Definition do_xtry (x : xworld) (t : N) (cancel : bool) : xworld * xres :=
         end
     | _, None => (x, XRTry 0 false)
     end.
+
+Definition do_xtry := do_xtry_gen validate_gen.
+
+(* validate_dynamic_job as it was before fix d760e3e (finding D36): the "digest unchanged" branch
+   called set_state(StepState.PENDING), i.e. deferred = False.  Kept to name the regression. *)
+Definition validate_prefix (new_run_ok inp_equal : bool) : bool * bool * N * bool :=
+  if negb new_run_ok then (false, false, 0, false)
+  else if negb inp_equal then (true, false, 0, false)
+  else (false, true, SS_PENDING, false).
 
 (* ---- try_skip_job from _compute_out_step_hash to the end ---- *)
 Definition out_ingredients (x : xworld) : list (N * N) :=
